@@ -580,7 +580,7 @@ FULL4 = dict(maxsize=4, body=BODY_ORDER, cont=CONTAINERS, spec=SPEC_ORDER)
 DEEP5 = dict(maxsize=5, body=['P', 'S', 'E', 'K'], cont=['L'], spec=['P'])
 # (alphabet, full mode set?)  -- quick is a subset of thorough, program- and mode-wise
 QUICK_PARTS = [(SMALL_FULL, False), (WIDE_L, False)]
-THOROUGH_PARTS = [(SMALL_FULL, True), (WIDE_LW, True), (FULL4, False), (DEEP5, False)]
+THOROUGH_PARTS = [(SMALL_FULL, True), (WIDE_L, True), (WIDE_LW, False), (FULL4, False)]
 
 
 def space(b):
